@@ -2052,6 +2052,7 @@ func (r *raft) pastElectionTimeout() bool {
 
 func (r *raft) resetRandomizedElectionTimeout() {
 	r.randomizedElectionTimeout = r.electionTimeout + globalRand.Intn(r.electionTimeout)
+	verifAfterRTOReset(r)
 }
 
 func (r *raft) sendTimeoutNow(to uint64) {
